@@ -203,7 +203,19 @@ func compare(c *vk.Ctx, what string, sent, got [][]byte, replay map[string]inter
 	}
 }
 
+// expiredWaits counts waits that ran into their deadline; after a few of them the code under test is
+// evidently losing messages and later waits are cut short (the verdict is already "violated").
+var expiredWaits int64
+
 func waitFor(cond func() bool, d time.Duration, conns ...*wire.Conn) bool {
+	if atomic.LoadInt64(&expiredWaits) > 12 && d > 500*time.Millisecond {
+		d = 500 * time.Millisecond
+	}
+	defer func() {
+		if !cond() {
+			atomic.AddInt64(&expiredWaits, 1)
+		}
+	}()
 	deadline := time.Now().Add(d)
 	for !cond() {
 		if time.Now().After(deadline) {
@@ -222,7 +234,7 @@ func waitFor(cond func() bool, d time.Duration, conns ...*wire.Conn) bool {
 
 func main() {
 	c := vk.Init("C04")
-	c.Rule("scenario i: 1..200 well-formed messages (any MsgType, 30..70000 bytes incl. single fields of 4000..70000 bytes, values containing '10=', fields 110/210/1010/9910) are concatenated and cut into read chunks by one of 13 strategies (all-in-one, one byte per read, random, message-aligned, coalescing, and a boundary at every offset 0..7 of every message's trailing CheckSum field), with feed timing {none, Gosched, 1 ms pauses}; delivered to (a) an Initiator with a recording handler that asserts one ServeIncoming at a time, (b) an Initiator with DefaultHandler + incoming callbacks, (c) an Acceptor with 1..8 simultaneous connections through the real handler factory, each message tagged (connection, counter); buffer sizes {0,1,10}. Outbound: 1..4 goroutines hand unique messages to Send/SendRaw; the peer-side capture is split by the reference splitter. Oracle: per connection delivered == sent (bytes, order, multiplicity), nothing from another connection, outbound stream == hand-off order (order seen by an outgoing ALL-handler under the handler's own lock; per-goroutine order for SendRaw). distinct = hash(partition signature, messages); non-trivial = >=2 messages or a boundary inside a CheckSum field")
+	c.Rule("scenario i: 1..200 well-formed messages (any MsgType, 30..70000 bytes incl. single fields of 4000..70000 bytes, values containing '10=', fields 110/210/1010/9910) are concatenated and cut into read chunks by one of 13 strategies (all-in-one, one byte per read, random, message-aligned, coalescing, and a boundary at every offset 0..7 of every message's trailing CheckSum field), with feed timing {none, Gosched, 1 ms pauses}; delivered to (a) an Initiator with a recording handler that asserts one ServeIncoming at a time, (b) an Initiator with DefaultHandler + incoming callbacks, (c) an Acceptor with 1..8 simultaneous connections (arriving one at a time or all back to back before any handler exists) through the real handler factory, each message tagged (connection, counter); buffer sizes {0,1,10}. Outbound: 1..4 goroutines hand unique messages to Send/SendRaw; the peer-side capture is split by the reference splitter. Oracle: per connection delivered == sent (bytes, order, multiplicity), nothing from another connection, outbound stream == hand-off order (order seen by an outgoing ALL-handler under the handler's own lock; per-goroutine order for SendRaw). distinct = hash(partition signature, messages); non-trivial = >=2 messages or a boundary inside a CheckSum field")
 	n := c.Pick(3000, 60000)
 	vk.Parallel(n, runtime.NumCPU(), func(i int) {
 		r := c.Rand("c04", int64(i))
@@ -415,14 +427,28 @@ func main() {
 			done := make(chan struct{})
 			go func() { acc.ListenAndServe(); close(done) }()
 			conns := make([]*wire.Conn, nconn)
+			backToBack := r.Intn(2) == 0 // all connections arrive before the acceptor has created a single handler
 			for k := 0; k < nconn; k++ {
 				conns[k] = wire.NewConn(fmt.Sprintf("c%d", k), false)
 				lst.Connect(conns[k])
-				select {
-				case <-created:
-				case <-time.After(10 * time.Second):
-					c.Inconclusive("acceptor did not create a handler")
-					return
+				if !backToBack {
+					select {
+					case <-created:
+					case <-time.After(10 * time.Second):
+						c.Inconclusive("acceptor did not create a handler")
+						return
+					}
+				}
+			}
+			if backToBack {
+				c.Count("acceptor_scenarios_with_back_to_back_connections", 1)
+				for k := 0; k < nconn; k++ {
+					select {
+					case <-created:
+					case <-time.After(10 * time.Second):
+						c.Inconclusive("acceptor did not create a handler")
+						return
+					}
 				}
 			}
 			var wg sync.WaitGroup
@@ -439,33 +465,60 @@ func main() {
 				}(k, chunks)
 			}
 			wg.Wait()
-			waitFor(func() bool {
+			total := func() int {
 				rmu.Lock()
 				defer rmu.Unlock()
+				n := 0
 				for _, rc := range recs {
 					rc.mu.Lock()
-					n := len(rc.got)
+					n += len(rc.got)
 					rc.mu.Unlock()
-					if n < nmsg {
-						return false
-					}
 				}
-				return true
-			}, 10*time.Second, conns...)
+				return n
+			}
+			waitFor(func() bool { return total() >= nmsg*nconn }, 10*time.Second)
 			time.Sleep(2 * time.Millisecond)
-			for k, rc := range recs {
+			// handlers are matched to connections by what they were given (every message carries its connection's id)
+			served := map[int]int{}
+			rmu.Lock()
+			rs := append([]*rec(nil), recs...)
+			rmu.Unlock()
+			for hi, rc := range rs {
 				rc.mu.Lock()
 				g := append([][]byte(nil), rc.got...)
 				rc.mu.Unlock()
-				// handler k was created for connection k (connections are added one at a time)
+				if len(g) == 0 {
+					continue
+				}
+				owner := -1
+				mixed := false
 				for _, m := range g {
 					fs, _ := fixref.TokenizeLoose(m)
-					if id := fixref.GetS(fs, "58"); !strings.HasPrefix(id, fmt.Sprintf("c%d-", k)) {
-						c.Violate("C04/inbound/message-from-another-connection", fmt.Sprintf("%s: handler of connection %d was given message %q", desc, k, id), replay)
-						break
+					id := fixref.GetS(fs, "58")
+					k := -1
+					fmt.Sscanf(id, "c%d-", &k)
+					if owner == -1 {
+						owner = k
+					} else if k != owner {
+						mixed = true
 					}
 				}
-				compare(c, "inbound/"+mode, sent[k], g, replay)
+				if mixed || owner < 0 || owner >= nconn {
+					c.Violate("C04/inbound/message-from-another-connection", fmt.Sprintf("%s: handler #%d was given messages of more than one connection (or an unknown one)", desc, hi), replay)
+					continue
+				}
+				served[owner]++
+				compare(c, "inbound/"+mode, sent[owner], g, replay)
+			}
+			for k := 0; k < nconn; k++ {
+				if served[k] == 0 {
+					c.Violate("C04/inbound/"+mode+"/connection-never-served", fmt.Sprintf("%s: the %d messages of connection %d reached no handler", desc, nmsg, k), replay)
+					break
+				}
+				if served[k] > 1 {
+					c.Violate("C04/inbound/"+mode+"/connection-served-by-several-handlers", fmt.Sprintf("%s: the messages of connection %d were spread over %d handlers", desc, k, served[k]), replay)
+					break
+				}
 			}
 			c.Max("max_connections", int64(nconn))
 			acc.Close()
